@@ -79,6 +79,10 @@ CTX = {
     "alt": ("![%s](/u)\n", '<p><img src="/u" alt="%s"%s></p>\n', False),
     "title": ('[x](/u "%s")\n', '<p><a href="/u" title="%s">x</a></p>\n', True),
     "cell": ("|%s|\n|-|\n", "<table>\n<thead>\n<tr>\n<th>%s</th>\n</tr>\n</thead>\n</table>\n", False),
+    # rows written without the optional enclosing pipes: the text is the last / the first cell and touches the end / start of the row
+    "cell_last": ("x|%s\n-|-\n", "<table>\n<thead>\n<tr>\n<th>x</th>\n<th>%s</th>\n</tr>\n</thead>\n</table>\n", False),
+    "cell_first": ("%s|x\n-|-\n", "<table>\n<thead>\n<tr>\n<th>%s</th>\n<th>x</th>\n</tr>\n</thead>\n</table>\n", False),
+    "cell_body_last": ("h|k\n-|-\ny|%s\n", "<table>\n<thead>\n<tr>\n<th>h</th>\n<th>k</th>\n</tr>\n</thead>\n<tbody>\n<tr>\n<td>y</td>\n<td>%s</td>\n</tr>\n</tbody>\n</table>\n", False),
 }
 
 
@@ -106,7 +110,7 @@ def one(ctx: Ctx, rng, mds, t):
                 ctx.count((tt, cname, form, mname), nontrivial=any(c in PUNCT for c in tt))
                 if got != want:
                     kind = "literal:" + cname
-                    if cname == "cell" and form == "bs" and (tt.endswith("\\") or "\\|" in tt):
+                    if cname.startswith("cell") and form == "bs" and (tt.endswith("\\") or "\\|" in tt):
                         kind = "cell:backslash-before-pipe"
                     ctx.fail(kind, f"escaped text is not literal in context {cname} ({form}, {mname})",
                              {"input": doc, "t": tt, "context": cname, "encoding": form, "preset": mname, "got": got, "want": want})
